@@ -81,6 +81,14 @@ def apply(dreye, obj, a, shadow):
         sk, bk = divmod(k, 100)
         lb, ub = BOUNDS[bk]
         obj.register_system(SRC[sk].copy(), lb=None if lb is None else np.array(lb, float), ub=None if ub is None else np.array(ub, float), **own)
+    elif op == "register_system_bad":
+        ubbad = np.full(len(SRC[k]), np.inf)
+        ubbad[0] = 1.0
+        try:
+            obj.register_system(SRC[k].copy(), ub=ubbad, **own)
+        except AssertionError:
+            return
+        raise MachineryFailure("register_system with partly infinite upper bounds did not raise")
     elif op == "register_bounds":
         lb, ub = BOUNDS[k]
         obj.register_bounds(lb=None if lb is None else np.array(lb, float), ub=None if ub is None else np.array(ub, float))
